@@ -51,11 +51,24 @@ package main
 //	                        order = "time" windows, and every unordered criteria query as ASC without limit.
 //	form a    (rules != none) ORDER BY idx-a (the stream harness does the same beyond the spec's time order).  A time
 //	                        restriction cannot be expressed here (the time range only selects segments): asked only
-//	                        when [lo, hi] covers every acknowledged row, else skipped with a counter.
+//	                        when [lo, hi] covers every acknowledged row, else skipped with a counter.  Conditions on a
+//	                        are then conditions on the KEY of the ordering index: ranges and equalities narrow the key
+//	                        range; NE / IN / NOT_IN and ORs that mention a are decided on the spans of the candidate
+//	                        traces - for those the selected SET is compared, the order is not (counter): a trace of
+//	                        several spans keeps the key of its first index element, which need not satisfy them.
 //	single trace            at queryall steps every trace of the view is fetched by trace_id = T.
 //
 // Not expressible and therefore not asked: unordered queries without a trace id (the engine requires one of the two),
-// ordering by time without an index rule, aggregates.  Counters name every skip.
+// ordering by time without an index rule, a span-level time restriction next to trace ids or to ORDER BY idx-a,
+// windows of a trace-id query (it has no order), aggregates.  Counters name every skip.
+//
+// The default query path of the engine is its vectorized pipeline (QuerySync on the secondary index + direct block
+// assembly); families with the server flag --trace-vectorized-enabled=false run the row path (StreamingQuery + block
+// scan stage).  Several shards (cfg.shards): a trace lives in the shard its id hashes to; flush steps flush every
+// table, merge steps merge all file parts of every table, the layout is not compared, every answer is.
+//
+// Binding self-test: VERIF_TRACE_SELFTEST = corrupt-tag | corrupt-body | drop-span makes the expectation of row 1 / of
+// every trace wrong; checks/trace_try.py requires each to be reported.
 
 import (
 	"context"
@@ -236,8 +249,6 @@ func (m *traceWorld) rulesDef() map[string][]string {
 }
 
 func (m *traceWorld) setup(ctx context.Context) error {
-	t0 := time.Now()
-	defer func() { m.res.Stats["setup_ms_total"] += int(time.Since(t0).Milliseconds()) }()
 	gc := databasev1.NewGroupRegistryServiceClient(m.srv.conn)
 	_, err := gc.Create(ctx, &databasev1.GroupRegistryServiceCreateRequest{Group: &commonv1.Group{
 		Metadata: &commonv1.Metadata{Name: m.group},
@@ -393,7 +404,7 @@ func (m *traceWorld) spanTags(row map[string]any) map[string]*modelv1.TagValue {
 		"svc": tagStr(m.seriesName(vlib.Int(row, "s"))), "rid": tagInt(int64(id)), "a": tagInt(a), "b": tagStr(b),
 		"arr": {Value: &modelv1.TagValue_IntArray{IntArray: &modelv1.IntArray{Value: arr}}},
 		"ps":  tagStr(v.ps), "pb": {Value: &modelv1.TagValue_BinaryData{BinaryData: v.pb}},
-		"pa":  tagStrs(v.pa), "pia": {Value: &modelv1.TagValue_IntArray{IntArray: &modelv1.IntArray{Value: v.pia}}},
+		"pa": tagStrs(v.pa), "pia": {Value: &modelv1.TagValue_IntArray{IntArray: &modelv1.IntArray{Value: v.pia}}},
 		"pts": tagTime(v.pts),
 	}
 	for bit, n := range []string{"ps", "pb", "pa", "pia", "pts"} {
@@ -494,8 +505,6 @@ func (m *traceWorld) realParts() map[uint64]trace.VerifLoopPart {
 var traceSigCount = map[string]int{}
 
 func (m *traceWorld) replay(ctx context.Context, b vlib.Behaviour) {
-	t0 := time.Now()
-	defer func() { m.res.Stats["replay_ms_total"] += int(time.Since(t0).Milliseconds()) }()
 	for i, st := range b.States {
 		if i == 0 {
 			continue
@@ -508,7 +517,6 @@ func (m *traceWorld) replay(ctx context.Context, b vlib.Behaviour) {
 		m.res.Inc("op_" + op)
 		fail := func(sig, format string, a ...any) { m.res.Violate(b.ID, i, sig, format, a...) }
 		coin := rand.New(rand.NewSource(m.seed*131 + int64(b.ID)*7 + int64(i)*1009))
-		tOp := time.Now()
 		switch op {
 		case "write":
 			before := m.realParts()
@@ -649,15 +657,12 @@ func (m *traceWorld) replay(ctx context.Context, b vlib.Behaviour) {
 			}
 			continue
 		}
-		m.res.Stats["ms_op_"+op] += int(time.Since(tOp).Milliseconds())
-		tOp = time.Now()
 		if m.cfg.Shards <= 1 && !m.checkParts(st, op, fail) {
 			return
 		}
 		if !m.checkCover(ctx, st, op, fail) {
 			return
 		}
-		m.res.Stats["ms_cover"] += int(time.Since(tOp).Milliseconds())
 	}
 }
 
